@@ -62,6 +62,8 @@ pub struct Resp {
     pub kinds: Vec<&'static str>,
     pub optout_used: bool,
     pub high_iter: bool,
+    /// largest NSEC3 iteration count of a signed NSEC3 zone on the path
+    pub max_iter: u16,
     pub zones: Vec<usize>,
 }
 
@@ -99,6 +101,7 @@ impl Resp {
         if z.shape.iterations > 100 {
             self.high_iter = true;
         }
+        self.max_iter = self.max_iter.max(z.shape.iterations);
         self.add(1, z.idx, std::slice::from_ref(&n.rec), &n.sigs, None, role);
     }
     fn add_soa(&mut self, z: &Zone) {
@@ -224,6 +227,9 @@ pub fn resolve(w: &World, qname: &[u8], qtype: u16) -> Resp {
         while let Some(i) = up {
             if w.zones[i].shape.signed && w.zones[i].shape.denial != Denial::Nsec && w.zones[i].shape.iterations > 100 {
                 r.high_iter = true;
+            }
+            if w.zones[i].shape.signed && w.zones[i].shape.denial != Denial::Nsec {
+                r.max_iter = r.max_iter.max(w.zones[i].shape.iterations);
             }
             up = w.zones[i].parent;
         }
